@@ -319,7 +319,14 @@ pub fn recheck_text(case: &Value) -> Vec<String> {
 // C08: typed traces (R13) and agreement with the text API
 
 const THROWABLES: [Option<(&str, Option<&str>)>; 5] = [None, Some(("a.E", Some("boom"))), Some(("a.E", None)), Some(("x.Unknown", Some("msg: with colon"))), Some(("x.Unknown", None))];
-const FRAMES: [(&str, &str, usize, Option<&str>); 4] = [("a.b", "m", 2, Some("F.java")), ("a.b", "zz", 2, Some("F.java")), ("x.Unknown", "m", 2, Some("U.java")), ("a.b", "n", 7, Some("F.java"))];
+const FRAMES: [(&str, &str, usize, Option<&str>); 5] = [
+    ("a.b", "m", 2, Some("F.java")),
+    ("a.b", "zz", 2, Some("F.java")),
+    ("x.Unknown", "m", 2, Some("U.java")),
+    ("a.b", "n", 7, Some("F.java")),
+    // known class and method, line outside every range: does not resolve, must be kept
+    ("a.b", "m", 99, Some("F.java")),
+];
 
 fn frame_seqs(max: usize, nframes: usize) -> Vec<Vec<usize>> {
     let mut v: Vec<Vec<usize>> = vec![vec![]];
@@ -492,7 +499,7 @@ pub fn run_c08(tier: Tier) -> i32 {
                         acc.sample(2, || otrace_json(&t));
                     }
                 };
-                rec(&mut chain, max_depth, if t { &cause_levels } else { &cause_levels }, if t { &cause_levels[..cause_levels.len().min(40)] } else { &small_levels }, &fseqs, &mut visit, budget);
+                rec(&mut chain, max_depth, if t { &cause_levels } else { &small_levels }, if t { &cause_levels[..cause_levels.len().min(40)] } else { &small_levels }, &fseqs, &mut visit, budget);
             })
         });
     });
@@ -500,7 +507,7 @@ pub fn run_c08(tier: Tier) -> i32 {
         prop: "C08",
         tier,
         level: "model_checking",
-        rule: format!("every typed trace with a top level from {} levels (exception absent / known / unknown x message / none; 0..2 frames over 4 frame kinds: resolving to 2 frames, unknown method, unknown class, entry without lines) and cause chains of depth 0..={} (first cause level: all levels with an exception; deeper levels: {} ) x 2 mappings x {{mapper, cache}}; oracle R13 (same depth, every throwable remapped-or-identical, every frame expanded-or-identical, order kept) and, for every trace, printed typed result == text API on the printed input. distinct = distinct expected traces; non-trivial = expected != input", nlevels, max_depth, if t { "the first 40 levels with an exception" } else { "levels with an exception and <= 1 frame" }),
+        rule: format!("every typed trace with a top level from {} levels (exception absent / known / unknown x message / none; 0..2 frames over 5 frame kinds: resolving to 2 frames, unknown method, unknown class, entry without lines, known method with a line outside every range) and cause chains of depth 0..={} (first cause level: {}; deeper levels: {} ) x 2 mappings x {{mapper, cache}}; oracle R13 (same depth, every throwable remapped-or-identical, every frame expanded-or-identical, order kept) and, for every trace, printed typed result == text API on the printed input. distinct = distinct expected traces; non-trivial = expected != input", nlevels, max_depth, if t { "all levels with an exception" } else { "levels with an exception and <= 1 frame" }, if t { "the first 40 levels with an exception" } else { "levels with an exception and <= 1 frame" }),
         bounds: json!({"top_levels": nlevels, "max_cause_depth": max_depth, "throwables": THROWABLES.iter().map(|t| format!("{:?}", t)).collect::<Vec<_>>(), "frames": FRAMES.iter().map(|f| format!("{:?}", f)).collect::<Vec<_>>()}),
         assumptions: vec!["canonical printed form: frames carry a file, cause levels carry an exception, the top level has an exception or a frame".into()],
         trusted_base: vec!["rustc/std".into(), "reference model pgmc/src/model.rs + model_typed in pgmc/src/props/e3.rs".into()],
